@@ -2727,3 +2727,43 @@ impl ChangeMarker for AnnotationStore {
         &self.changed
     }
 }
+
+#[cfg(stam_verif)]
+impl AnnotationStore {
+    /// Verification hook: raw content of all reverse indices and id maps, in stored order
+    pub fn verif_dump(&self) -> crate::verif_hooks::IndexDump {
+        crate::verif_hooks::IndexDump {
+            annotations_len: self.annotations.len(),
+            resources_len: self.resources.len(),
+            datasets_len: self.annotationsets.len(),
+            dataset_data_annotation_map: self.dataset_data_annotation_map.verif_dump(),
+            textrelationmap: self.textrelationmap.verif_dump(),
+            resource_annotation_metamap: self.resource_annotation_metamap.verif_dump(),
+            dataset_annotation_metamap: self.dataset_annotation_metamap.verif_dump(),
+            annotation_annotation_map: self.annotation_annotation_map.verif_dump(),
+            key_annotation_map: self.key_annotation_map.verif_dump(),
+            key_annotation_metamap: self.key_annotation_metamap.verif_dump(),
+            data_annotation_metamap: self.data_annotation_metamap.verif_dump(),
+            annotation_substore_map: self.annotation_substore_map.verif_dump(),
+            resource_substore_map: self.resource_substore_map.verif_dump(),
+            dataset_substore_map: self.dataset_substore_map.verif_dump(),
+            annotation_idmap: self.annotation_idmap.verif_dump(),
+            resource_idmap: self.resource_idmap.verif_dump(),
+            dataset_idmap: self.dataset_idmap.verif_dump(),
+            substore_idmap: self.substore_idmap.verif_dump(),
+            datasets: self
+                .annotationsets
+                .iter()
+                .enumerate()
+                .filter_map(|(i, s)| s.as_ref().map(|s| (i, s.verif_dump())))
+                .collect(),
+            resources: self
+                .resources
+                .iter()
+                .enumerate()
+                .filter_map(|(i, r)| r.as_ref().map(|r| (i, r.verif_dump())))
+                .collect(),
+            changed: self.changed(),
+        }
+    }
+}
